@@ -1,6 +1,59 @@
-/-! Driver entry for property C26 (stub: not implemented yet). -/
-namespace HeartwoodModel.Driver.C26
+import HeartwoodModel.Model.Term
+import HeartwoodModel.Driver.Util
+/-! Driver entry for C26.
 
-def run (_args : List String) : String := "unimplemented"
+String token: `-` (empty) or clusters joined by `,`; a cluster is `<width>` followed by one
+`:<w|n><hex>` per scalar value (`w` = `char::is_whitespace`), e.g. `ab　…` = `1:n61,1:n62,2:we38080,1:ne280a6`.
+
+* `str <s> <width> <delim>` — `str::truncate` → `ok:<hex of the result>` | `panic` | `inside`
+* `line <items> <width> <delim>` — `Line::truncate`; `<items>` is `~` (no label) or string tokens joined
+  by `/` → `ok:<hex>/<hex>…` (`~` when no label is left) | `panic` | `inside` | `fuel`
+-/
+namespace HeartwoodModel.Driver.C26
+open HeartwoodModel.Term HeartwoodModel.Driver.Util
+
+def chr? (t : String) : Option Chr :=
+  match t.toList with
+  | 'w' :: h => (hexBytes? (String.ofList h)).bind fun b => if b.isEmpty then none else some ⟨b, true⟩
+  | 'n' :: h => (hexBytes? (String.ofList h)).bind fun b => if b.isEmpty then none else some ⟨b, false⟩
+  | _ => none
+
+def grapheme? (t : String) : Option Grapheme :=
+  match splitOn t ':' with
+  | w :: cs@(_ :: _) => do
+    let w ← nat? w
+    let cs ← cs.mapM chr?
+    some ⟨cs, w⟩
+  | _ => none
+
+def str? (t : String) : Option Str :=
+  if t == "-" then some [] else (splitOn t ',').mapM grapheme?
+
+def line? (t : String) : Option Line :=
+  if t == "~" then some [] else (splitOn t '/').mapM str?
+
+def showLine (l : Line) : String :=
+  if l.isEmpty then "~" else joinWith "/" (l.map fun i => toHex (bytesOf i))
+
+def run (args : List String) : String :=
+  match args with
+  | ["str", s, w, d] =>
+    match str? s, nat? w, str? d with
+    | some s, some w, some d =>
+      match truncate s w d with
+      | .ok out => "ok:" ++ toHex (bytesOf out)
+      | .panic _ => "panic"
+      | .cutInsideGrapheme => "inside"
+    | _, _, _ => "bad-op"
+  | ["line", l, w, d] =>
+    match line? l, nat? w, str? d with
+    | some l, some w, some d =>
+      match lineTruncate (l.length + 2) l w d with
+      | none => "fuel"
+      | some (.ok out) => "ok:" ++ showLine out
+      | some (.panic _) => "panic"
+      | some .cutInsideGrapheme => "inside"
+    | _, _, _ => "bad-op"
+  | _ => "bad-op"
 
 end HeartwoodModel.Driver.C26
